@@ -39,14 +39,16 @@ def budget(tier):
 
 KINDS = ['fold_add', 'fold_max', 'fold_cat', 'fold_iadd_list', 'fold_probe_init', 'sum', 'sum_float',
          'sum_probe_init', 'flatten', 'flatten_lazy', 'flatten_tuple', 'flatten_str', 'flatten_probe_init',
-         'merge', 'merge_odict', 'merge_probe_init', 'flatten_fn', 'merge_fn', 'flatten_levels2']
+         'merge', 'merge_odict', 'merge_probe_init', 'flatten_fn', 'merge_fn', 'flatten_levels2',
+         'flatten_levels2_int', 'flatten_levels2_tuple', 'flatten_levels0', 'flatten_levels3']
 
 ITEM_KIND = {
     'fold_add': 'int', 'fold_max': 'int', 'fold_cat': 'any', 'fold_iadd_list': 'list', 'fold_probe_init': 'list',
     'sum': 'int', 'sum_float': 'int', 'sum_probe_init': 'int', 'flatten': 'list', 'flatten_lazy': 'list',
     'flatten_tuple': 'tuple', 'flatten_str': 'str', 'flatten_probe_init': 'list', 'merge': 'dict',
     'merge_odict': 'dict', 'merge_probe_init': 'dict', 'flatten_fn': 'list', 'merge_fn': 'dict',
-    'flatten_levels2': 'list2',
+    'flatten_levels2': 'list2', 'flatten_levels2_int': 'intlist', 'flatten_levels2_tuple': 'tuple2',
+    'flatten_levels0': 'list', 'flatten_levels3': 'list3',
 }
 
 
@@ -85,6 +87,14 @@ def gen_items(rng, ik):
     if ik == 'list2':
         return [{'t': 'list', 'v': [{'t': 'list', 'v': [rng.randint(0, 9) for _ in range(rng.randint(0, 2))]}
                                     for _ in range(rng.randint(0, 2))]} for _ in range(n)]
+    if ik == 'intlist':
+        return [{'t': 'list', 'v': [rng.randint(0, 9) for _ in range(rng.randint(0, 3))]} for _ in range(n)]
+    if ik == 'tuple2':
+        return [{'t': 'list', 'v': [{'t': 'tuple', 'v': [rng.randint(0, 9) for _ in range(rng.randint(0, 2))]}
+                                    for _ in range(rng.randint(0, 2))]} for _ in range(n)]
+    if ik == 'list3':
+        return [{'t': 'list', 'v': [{'t': 'list', 'v': [{'t': 'list', 'v': [rng.randint(0, 9)]} for _ in range(rng.randint(0, 2))]}
+                                    for _ in range(rng.randint(0, 2))]} for _ in range(n)]
     if ik == 'tuple':
         return [{'t': 'tuple', 'v': [rng.randint(0, 9) for _ in range(rng.randint(0, 3))]} for _ in range(n)]
     if ik == 'str':
@@ -100,13 +110,15 @@ def gen_case(seed, tier):
     rng = random.Random(seed)
     kind = rng.choice(KINDS)
     ik = ITEM_KIND[kind]
-    with_sub = rng.random() < 0.3 and not kind.endswith(('_fn', 'levels2'))
+    with_sub = rng.random() < 0.3 and not kind.endswith('_fn') and 'levels' not in kind
     nsrc = rng.randint(2, 6)
     sources = []
     for i in range(nsrc):
         sources.append({'items': gen_items(rng, ik), 'container': rng.choice(['simiter', 'simlist', 'simiter', 'list', 'tuple', 'gen'])})
     mode = rng.choice(['repeat', 'repeat', 'interleave', 'interleave', 'fault', 'noniter'] +
                       (['lazy'] * 3 if kind == 'flatten_lazy' else []))
+    if kind == 'flatten_levels0' and mode == 'noniter':
+        mode = 'repeat'        # levels=0 returns the target untouched: nothing to fold
     case = {'prop': PROP, 'seed': seed, 'knobs': simrun.draw_knobs(rng), 'kind': kind, 'with_sub': with_sub,
             'sources': sources, 'mode': mode}
     if mode == 'interleave':
@@ -155,6 +167,15 @@ def reference(kind, items):
         return list(itertools.chain.from_iterable(items))
     if kind == 'flatten_levels2':
         return list(itertools.chain.from_iterable(itertools.chain.from_iterable(items)))
+    if kind == 'flatten_levels2_int':
+        return sum(itertools.chain.from_iterable(items), 0)
+    if kind == 'flatten_levels2_tuple':
+        return tuple(itertools.chain.from_iterable(itertools.chain.from_iterable(items)))
+    if kind == 'flatten_levels0':
+        return items
+    if kind == 'flatten_levels3':
+        c = itertools.chain.from_iterable
+        return list(c(c(c(items))))
     if kind in ('sum', 'sum_probe_init'):
         return sum(items)
     if kind == 'sum_float':
@@ -214,6 +235,14 @@ class World:
             return lambda: G.merge(target)
         if kind == 'flatten_levels2':
             return lambda: G.flatten(target, levels=2)
+        if kind == 'flatten_levels2_int':
+            return lambda: G.flatten(target, levels=2, init=int)
+        if kind == 'flatten_levels2_tuple':
+            return lambda: G.flatten(target, levels=2, init=tuple)
+        if kind == 'flatten_levels0':
+            return lambda: list(G.flatten(target, levels=0))
+        if kind == 'flatten_levels3':
+            return lambda: G.flatten(target, levels=3)
         if kind == 'flatten_lazy':
             return lambda: list(G.glom(target, self.spec))
         return lambda: G.glom(target, self.spec)
